@@ -232,7 +232,7 @@ def handle (toks : List String) : String :=
         | .panic => "panic"
       | none => "bad-request"
     | _, _, _, _, _, _ => "bad-request"
-  | ["fimg2json", ver, fsn, cl, eof, typ, aux, acc, accd, cr, md, vs, mv, path, chunks] =>
+  | ["fimg2json", jc, ver, fsn, cl, eof, typ, aux, acc, accd, cr, md, vs, mv, path, chunks] =>
     match ofHex ver, ofHex fsn, cl.toNat?, ofHex eof, ofHex typ, ofHex aux, ofHex acc with
     | some ver, some fsn, some cl, some eof, some typ, some aux, some acc =>
       match ofHex accd, ofHex cr, ofHex md, ofHex vs, ofHex mv, ofHex path, parsePairs chunks with
@@ -241,17 +241,17 @@ def handle (toks : List String) : String :=
                           access := acc, accessed := accd, created := cr, modified := md, version := vs,
                           minVersion := mv, fullPath := path, chunks := cs }
         let j := fimgToJson f
-        let back := match fimgFromJson j with
+        let back := match fimgFromJson (if jc == "b" then JsonChk.bounded else JsonChk.legacy) j with
           | .ok g => if g == f then "same" else "differs"
           | .err => "err"
           | .panic => "panic"
         s!"{digest ((renderJ j).toList.map Char.toNat)} back={back}"
       | _, _, _, _, _, _, _ => "bad-request"
     | _, _, _, _, _, _, _ => "bad-request"
-  | ["json2fimg", tree] =>
+  | ["json2fimg", jc, tree] =>
     match parseTree tree with
     | some j =>
-      match fimgFromJson j with
+      match fimgFromJson (if jc == "b" then JsonChk.bounded else JsonChk.legacy) j with
       | .ok g => "ok " ++ fullDigest g
       | .err => "err"
       | .panic => "panic"
